@@ -780,8 +780,27 @@ impl World {
                 if room == 0 && !buf.is_empty() {
                     accept = 0;
                     result = Err(io::Error::new(ErrorKind::StorageFull, "quota exceeded"));
+                    // the environment records the fault it injected
+                    self.note_fired(
+                        Fault {
+                            addr: FaultAddr::Global { nth: q as u32 },
+                            class: OpClass::Write,
+                            seam: SeamKind::File,
+                            kind: FaultKind::Error(IoKind::StorageFull),
+                        },
+                        seam,
+                    );
                 } else if accept > room {
                     accept = room;
+                    self.note_fired(
+                        Fault {
+                            addr: FaultAddr::Global { nth: q as u32 },
+                            class: OpClass::Write,
+                            seam: SeamKind::File,
+                            kind: FaultKind::ShortWrite(0),
+                        },
+                        seam,
+                    );
                 }
             }
         }
